@@ -21,6 +21,9 @@ def corpus_texts():
 
 def obs_text(case):
     o = engine.observe_text(case)
+    # duration amounts above 10^6 are outside the model's 32-bit arithmetic (DESIGN.md section 10): not judged by TLC
+    if not qa.row_in_model({"x": [o["init"], o["cands"]]}):
+        return []
     return o
 
 
@@ -58,10 +61,15 @@ def run(ctx):
     # real grammar
     texts = corpus_texts()
     extra = ["9-5", "tomorrow 9-5", "at 8pm", "on monday at 8", "5.3.2020 for 3 days", "15-16 nov für 1 nacht", "between 8 and 10",
-             "early morning", "very late evening tomorrow", "8 8", "morgen früh um 8", "next week monday 10-12"]
+             "early morning", "very late evening tomorrow", "8 8", "morgen früh um 8", "next week monday 10-12",
+             # sequences that START with a pattern which occurs again further on (joiners, 'of', 'für', 'next week')
+             "und 8 bis 9", "- 1.1. bis 3.1.", "zum 5. bis 7. mai", "of 5th of may", "für 3.3.2021 für 2 tage", "- 8:00 - 9:00",
+             "bis montag bis 12", "and 5.3.2021 and 7.3.2021", "to 9 to 5", "next week monday next week", "am am montag"]
+    texts += [(t, (2018, 3, 7, 12, 43)) for t in G.soups(rnd, 150 if ctx.quick else 1500, 2, 4)]
     texts += [(t, (2018, 3, 7, 12, 43)) for t in extra]
+    nkeep = len(extra) + (150 if ctx.quick else 1500)
     if ctx.quick:
-        texts = [x for i, x in enumerate(texts) if i % 3 == ctx.seed % 3] + texts[-len(extra):]
+        texts = [x for i, x in enumerate(texts[:-nkeep]) if i % 3 == ctx.seed % 3] + texts[-nkeep:]
     cases = []
     skipped = 0
     for t, ts in texts:
